@@ -77,6 +77,39 @@ def classify(stmt):
     return {"kind": "other"}
 
 
+CTX = None  # set by context.Ctx: lets body_sql resolve the constant arguments of a format template
+
+
+def _fill_template(body, bb, raw):
+    """`format!("SELECT .. FROM {table} ..")` with constant arguments (a helper that was handed the table name and got
+    inlined): the template's placeholders are replaced by the constants when every one of them is a string constant"""
+    n = raw.count("\ufffd")
+    t = body.term(bb)
+    if not n or CTX is None or t.get("k") != "call" or not str(t.get("callee", "")).endswith("Arguments::<'a>::new"):
+        return raw
+    from . import origin as og
+    from .rulekit import arg_origin, const_of
+    try:
+        args = arg_origin(CTX, body, bb, 1)
+    except Exception:
+        return raw
+    consts = []
+    for x in og.walk(args):
+        if isinstance(x, tuple) and x and x[0] == "call" and "Argument" in x[1] and x[1].split("::")[-1].startswith("new_display") and len(x[2]) == 1:
+            c = const_of(og.strip(x[2][0]))
+            consts.append(c[0] if c and isinstance(c[0], str) else None)
+    if len(consts) != n or any(c is None for c in consts):
+        return raw
+    out, i = "", 0
+    for ch in raw:
+        if ch == "\ufffd":
+            out += " " + consts[i] + " "
+            i += 1
+        else:
+            out += ch
+    return out
+
+
 def body_sql(body):
     """SQL string literals appearing in a body (in block order)"""
     out = []
@@ -88,7 +121,10 @@ def body_sql(body):
                 for key in ("str", "bytes"):
                     if key not in o or not isinstance(o[key], str):
                         continue
-                    st = norm("".join(ch if ch.isprintable() else " " for ch in o[key]))
+                    raw = o[key]
+                    if key == "bytes" and "\ufffd" in raw:
+                        raw = _fill_template(body, bb, raw)
+                    st = norm("".join(ch if ch.isprintable() else " " for ch in raw))
                     if key == "bytes":
                         st = norm(re.sub(r"^[^A-Za-z]*", "", st))
                     if re.match(r"(INSERT|UPDATE|DELETE|SELECT|PRAGMA|CREATE) ", st, re.I):
